@@ -608,21 +608,23 @@ class Interp:
                 if isinstance(n, ast.Name):
                     assigned.add(n.id)
         declared = set(inv.modifies_locals)
-        extra = {a for a in assigned - declared if a in fr.locals or True}
-        # locals first assigned inside the body and not live after the loop are harmless, but we cannot
-        # know liveness cheaply: require every assigned name to be declared (either modified or scratch)
-        extra -= set(getattr(inv, 'scratch_locals', ()))
-        if extra:
-            raise Unsupported("loop invariant for %s is stale: body assigns undeclared locals %s"
-                              % (fr.func.qualname, sorted(extra)))
+        extra = assigned - declared - set(getattr(inv, 'scratch_locals', ()))
+        # locals the invariant does not know about (e.g. a new temporary): havoc them by unbinding, so that a
+        # read before a (re)assignment raises instead of silently using a stale value
+        return extra
+
+    def unbind(self, fr, names):
+        for n in names:
+            fr.locals.pop(n, None)
 
     def while_with_invariant(self, node, fr, inv):
         ctx = self.ctx
-        self.check_loop_frame(node, fr, inv)
+        extra = self.check_loop_frame(node, fr, inv)
         name = "%s#loop%d" % (fr.func.qualname.split('.', 2)[-1] if False else fr.func.qualname, fr.func.loops[id(node)])
         ctx.prove(inv.inv(self, fr, None), name + ".inv.entry", kind='invariant')
         body_case = ctx.decide(ctx.fresh('loopcase', 'bool'))
         inv.havoc(self, fr, None)
+        self.unbind(fr, extra)
         ctx.assume(inv.inv(self, fr, None))
         if body_case:
             if not truthy(ctx, self.eval(node.test, fr)):
@@ -652,16 +654,17 @@ class Interp:
 
     def for_with_invariant(self, node, fr, inv, it):
         ctx = self.ctx
-        self.check_loop_frame(node, fr, inv)
+        extra = self.check_loop_frame(node, fr, inv)
         name = "%s#loop%d" % (fr.func.qualname, fr.func.loops[id(node)])
         seq = self.models.as_indexable(self, it)   # (start, stop, elem(i))
         start, stop, elem = seq
         ctx.prove(inv.inv(self, fr, start), name + ".inv.entry", kind='invariant')
         body_case = ctx.decide(ctx.fresh('loopcase', 'bool'))
-        inv.havoc(self, fr, None)
         if body_case:
             i = ctx.fresh('i', 'int')
             ctx.assume(z3.And(zint(start) <= i, i < zint(stop)))
+            inv.havoc(self, fr, i)
+            self.unbind(fr, extra)
             ctx.assume(inv.inv(self, fr, i))
             self.assign(node.target, elem(i), fr)
             log = self.start_write_log()
@@ -681,6 +684,8 @@ class Interp:
             raise PathEnd()
         else:
             end = simp(z3.If(zint(stop) >= zint(start), zint(stop), zint(start)))
+            inv.havoc(self, fr, end)
+            self.unbind(fr, extra)
             ctx.ghost[name + '.exit_index'] = end
             ctx.ghost[name + '.exit'] = 'exhausted'
             ctx.assume(inv.inv(self, fr, end))
@@ -1086,7 +1091,7 @@ class Interp:
                 continue
             kv = self.eval(k, fr)
             vv = self.eval(v, fr)
-            if not is_concrete(kv):
+            if not is_concrete(kv) and isinstance(d, dict):
                 sd = self.models.SymDict()
                 for kk, vv2 in d.items():
                     sd.set(self, kk, vv2)
